@@ -333,6 +333,26 @@ def native_replay(stage, entry, name, values):
             "panic": mp.group(1) if mp else None, "raw": out[-3000:]}
 
 
+def assumption_scan(pid, cfg):
+    """Mechanical scan of the contract / lemma sources this check uses for everything that is assumed
+    rather than proved: stubs, assumption counts, Verus trusted specs."""
+    out = {"kani_stubs": [], "vassume_calls": 0, "verus_assume_specification": [], "verus_uninterp_or_admit": []}
+    for (_, contract, _) in cfg.get("inject", []):
+        txt = open(os.path.join(CONTRACTS, contract)).read()
+        out["vassume_calls"] += len(re.findall(r"\bvassume\(|kani::assume\(", txt))
+        for m in re.finditer(r"kani::stub\(\s*([\w:]+)\s*,\s*([\w:]+)\s*\)", txt):
+            e = "%s -> %s (%s)" % (m.group(1), m.group(2).split("::")[-1], contract)
+            if e not in out["kani_stubs"]:
+                out["kani_stubs"].append(e)
+    v = cfg.get("verus")
+    files = {"c08": ["c08_prelude.rs"], "lemmas": ["lemma_loops.rs"], "lemmas_compose": ["lemma_compose.rs"]}.get(v, [])
+    for f in files:
+        txt = open(os.path.join(VERIF, "verus", f)).read()
+        out["verus_assume_specification"] += ["%s (%s)" % (x.strip(), f) for x in re.findall(r"assume_specification(?:<[^>]*>)?\[([^\]]*)\]", txt)]
+        out["verus_uninterp_or_admit"] += ["%s (%s)" % (x, f) for x in re.findall(r"\b(admit\(\)|external_body|uninterp spec fn \w+)", txt)]
+    return out
+
+
 # ------------------------------------------------------------------------------- known findings
 def load_known():
     p = os.path.join(VERIF, "known_findings.json")
@@ -530,6 +550,7 @@ def check(pid, tier, seed):
                 path = os.path.join(VERIF, "evidence", "replays", "%s-verus-%s.json" % (pid, re.sub(r"\W+", "_", ob)[:60]))
                 json.dump({"property": pid, "obligation": ob, "verifier": "verus", "verifier_output": text[-4000:], "values": None}, open(path, "w"), indent=1)
                 violations.append(("verus", ob, path, False))
+        cov["assumption_scan"] = assumption_scan(pid, cfg)
         cov["functions_under_contract"] = cfg.get("functions", [])
         cov["source_sha256"] = stage.hashes
         cov["trusted_base"] = P.COMMON_TRUSTED + cfg.get("trusted", [])
